@@ -57,6 +57,24 @@ DESC = {
            "a message whose complete answers total exactly N bytes under process::<N>"),
  "C13-c": ("C13", "Node::child upper-cases names longer than 16 bytes through to_ascii_uppercase() (a Vec)",
            "a declared mnemonic longer than 16 characters and an input mnemonic of exactly that length at the same tree level"),
+ "C02-d": ("C02", "the slow path of the header loop (white space next to ':') lost the 'header = node' update",
+           "a header with two or more mnemonics whose last ':' has white space next to it (SOUR:VOLT :LEV 1), followed by a relative unit"),
+ "C04-d": ("C04", "f32 and f64 formatting folded into one helper that prints with f32 digits whenever the f64 is exactly f32-representable",
+           "an f64 response on the f32 grid that needs more than ~7-9 significant digits (2^31, 2^53, 0.1f32 as f64)"),
+ "C05-d": ("C05", "hand-written integer formatter computes ilog10 of every nine-digit group, also of all-zero groups",
+           "an integer response of at least 10^9 that is a multiple of 10^9, or at least 10^18 with a zero middle group"),
+ "C06-d": ("C06", "block length digits accepted with 'digit > RADIX' instead of '>=', so ':' counts as the digit 10",
+           "a message with the malformed block header '#1:' - read as a 10 byte block that swallows the terminator and the following messages"),
+ "C07-d": ("C07", "run_from returns early when the remaining input is exactly one newline, without resetting the header path",
+           "process, a message ending in ';' directly before the newline whose last header has two or more mnemonics, then a message with a relative header"),
+ "C08-d": ("C08", "closing quote searched with text.find(|c: char| c as u8 == quote): the truncating cast matches code points whose low byte is the quote",
+           "a string payload containing e.g. U+2122 or U+0122 inside double quotes, U+0127 or U+2227 inside single quotes"),
+ "C09-d": ("C09", "overflow marker not written when the OLDEST entry already is the marker (front() where back() was meant)",
+           "overflow, read exactly capacity-1 entries so that the marker is the oldest entry, refill, one more error"),
+ "C10-d": ("C10", "single-exit refactor of process: the offset-update arm for an incomplete unit never looks at the stored write/flush result",
+           "a query before a unit with a newline in its payload, a write or flush error on that early answer, the rest of the message in the same read and another query before the terminator"),
+ "C13-d": ("C13", "execute awaits the generated execute_command future through Box::pin when it is larger than 4 KiB (alloc gated on panic=unwind)",
+           "an interface with a handler whose future exceeds 4 KiB; allocator-less panic=abort binaries still link"),
  "C13-b": ("C13", "String::from_utf8_lossy in the quoted-string recogniser",
            "a closed quoted string containing invalid UTF-8"),
 }
